@@ -95,7 +95,12 @@ func parseRabinString(r io.Reader, chunker string) (Splitter, error) {
 		size, err := strconv.Atoi(parts[1])
 		if err != nil {
 			return nil, err
-		} else if int(float32(size)*1.5) > ChunkSizeLimit { // FIXME - this will be addressed in a subsequent PR
+		}
+		// NewRabin derives min = avg/3 and max = avg + avg/2: apply the
+		// same bounds as the explicit min-avg-max form.
+		if size/3 < 16 {
+			return nil, ErrRabinMin
+		} else if size > ChunkSizeLimit || size+size/2 > ChunkSizeLimit {
 			return nil, ErrSizeMax
 		}
 		return NewRabin(r, uint64(size)), nil
